@@ -210,35 +210,22 @@ def algebra_check(ctx):
     ("2DPGA blade out of grade order", ("algebra", "basis = [\"e\", \"e1\", \"e2\", \"e0\", \"e20\", \"e01\", \"e12\", \"e012\"]", "basis = [\"e\", \"e1\", \"e2\", \"e20\", \"e0\", \"e01\", \"e12\", \"e012\"]")),
 ])
 def named_bases(ctx):
-    """The literal bases of Algebra.fromname are admissible for the (p, q, r) they are constructed with (TAB)."""
+    """The bases Algebra.fromname hands to the constructor are admissible for the (p, q, r) they are constructed with
+    (fromname is interpreted from source with the class replaced by a recorder of the constructor call)."""
+    from .c01 import named_algebras
     fn = ctx.func("algebra.Algebra.fromname")
-    found = 0
-    for iff in [n for n in ast.walk(fn) if isinstance(n, ast.If)]:
-        if not (isinstance(iff.test, ast.Compare) and isinstance(iff.test.comparators[0], ast.Constant)):
-            continue
-        name = iff.test.comparators[0].value
-        basis = None
-        call = None
-        for st in iff.body:
-            if isinstance(st, ast.Assign) and un(st.targets[0]) == "basis":
-                try:
-                    basis = const_value(st.value)
-                except ValueError:
-                    raise Unknown(f"algebra.Algebra.fromname#{name}", "basis is not a literal list", st)
-            if isinstance(st, ast.Return) and isinstance(st.value, ast.Call):
-                call = st.value
-        if basis is None or call is None:
-            continue
-        found += 1
+    table = named_algebras(ctx.repo)
+    for name, (pqr, basis, kwnames) in table.items():
         c = f"algebra.Algebra.fromname#{name}"
-        try:
-            pqr = [const_value(a) for a in call.args[:3]]
-        except ValueError:
-            raise Unknown(c, f"constructor arguments {un(call)}", call)
+        if basis is None:
+            ctx.violation(c, f"named algebra {name}: no basis is passed to the constructor (keywords {kwnames})", fn)
+            continue
         d = sum(pqr)
         problems = []
         if len(basis) != 2 ** d:
             problems.append(f"{len(basis)} blades for d = p+q+r = {d} (need {2 ** d})")
+        if any(not isinstance(b, str) for b in basis):
+            raise Unknown(c, f"basis {basis!r}", fn)
         if basis != sorted(basis, key=len):
             problems.append("not sorted by grade")
         if any(not b.startswith("e") for b in basis):
@@ -254,14 +241,10 @@ def named_bases(ctx):
             missing = [sorted(s) for s in want - set(sets)]
             dup = sorted({"e" + "".join(sorted(s)) for s in sets if sets.count(s) > 1})
             problems.append(f"blades are not every subset of the generators exactly once (missing {missing[:3]}, repeated {dup[:3]})")
-        if kwarg(call, "basis") is None or un(kwarg(call, "basis")) != "basis":
-            problems.append("the literal basis is not passed to the constructor")
         if problems:
-            ctx.violation(c, f"named algebra {name}: " + "; ".join(problems), iff)
+            ctx.violation(c, f"named algebra {name}: " + "; ".join(problems), fn)
         else:
-            ctx.ok(c, iff, d=d, blades=len(basis))
-    if found < 3:
-        raise Unknown("algebra.Algebra.fromname", f"only {found} literal bases recognised", fn)
+            ctx.ok(c, fn, d=d, blades=len(basis), pqr=pqr)
 
 
 # C14.matrix-basis lives in c18.py (it needs the symbolic Kronecker arithmetic defined there)
